@@ -58,7 +58,7 @@ MC_DEFAULTS = dict(Family="conc", Kinds={"single"}, ApisA={"lock"}, UnivA={1}, M
                    SeqColls={1}, SeqApis={"lock"}, SeqRels={"drop"}, SeqKeys={"owned"}, SeqBodies={"acc"},
                    SeqKeyOps=set(), SeqTopOps=set(), SeqDbgColls=set(), SeqMaxLen=1, SeqHolders={("none", 0)},
                    FltColls={1}, FltApis={"lock"}, FltKeys={"owned"}, FltRels={"drop"}, FltHolders={("none", 0)},
-                   FltMaxAt=1, FltTryProbes=set(), FltLockProbes=set(),
+                   FltMaxAt=1, FltPersist=set(), FltTryProbes=set(), FltLockProbes=set(),
                    CtorKinds={"boxed"}, CtorUniv={1}, CtorMaxLen=1)
 
 
